@@ -252,7 +252,7 @@ def monitor_engine_step(version, st):
 def gen_frames_case(rng):
     msgs = []
     for _ in range(rng.randrange(1, 4)):
-        n = rng.choice([0, 1, 7, 8, 9, 100, 255, 256, 300, 1024])
+        n = rng.choice([0, 1, 7, 8, 9, 100, 255, 256, 300, 1024, 1016, 1025, 1032, 1500, 2048, 2049, 4097, 9000, 66000])
         body = bytes(rng.getrandbits(8) for _ in range(n))
         msgs.append((bytes.fromhex("42007b01") + n.to_bytes(4, "big") + body).hex())
     cls = rng.choice(["whole", "whole", "truncated", "early-close"])
